@@ -4,6 +4,7 @@ package main
 import (
 	"encoding/json"
 	"fmt"
+	"go/ast"
 	"io"
 	"math/rand"
 	"path/filepath"
@@ -39,6 +40,142 @@ type input struct {
 	Rings   []ringCfg `json:"rings"`
 	Tenants []string  `json:"tenants"` // tenants to route
 	Fresh   int       `json:"fresh"`   // number of freshly built rings per tenant
+	// History mode: many tenants looked up on ONE multi-hashring instance.
+	// Tenants = warm-up tenants (served first); then Families x [0,N) names
+	// ("cust-17", "batch-3", ...) in an order shuffled by Seed, every tenth repeated later.
+	History  bool     `json:"history,omitempty"`
+	Families []string `json:"families,omitempty"`
+	N        int      `json:"n,omitempty"`
+	Seed     int64    `json:"seed,omitempty"`
+}
+
+// view renders the configuration as seen from one tenant (Coq tset terms) and
+// computes, in Go, the first-match route the configuration selects for it
+// ("RErr" when nothing matches or the first undecided glob set has a malformed
+// pattern and no matching one).
+func view(in input, t string, sid func(string) int64) (sets []string, expected string, malformed bool) {
+	expected = ""
+	for i, r := range in.Rings {
+		decided := ""
+		switch {
+		case len(r.Tenants) == 0:
+			sets = append(sets, "TDefault")
+			decided = common.App("RIdx", common.Nat(i))
+		case r.Type == "exact" || r.Type == "":
+			var ids []int64
+			hit := false
+			for _, x := range r.Tenants {
+				ids = append(ids, sid(x))
+				if x == t {
+					hit = true
+				}
+			}
+			sets = append(sets, common.App("TExact", common.ZList(ids)))
+			if hit {
+				decided = common.App("RIdx", common.Nat(i))
+			}
+		case r.Type == "glob":
+			var rs []string
+			seen := map[string]bool{}
+			hit, bad := false, false
+			for _, p := range r.Tenants {
+				if seen[p] { // the tenant set is a map: duplicates collapse
+					continue
+				}
+				seen[p] = true
+				m, err := filepath.Match(p, t)
+				if err != nil {
+					rs = append(rs, common.None)
+					malformed, bad = true, true
+				} else {
+					rs = append(rs, common.Some(common.Bool(m)))
+					hit = hit || m
+				}
+			}
+			sets = append(sets, common.App("TGlob", common.List(rs)))
+			if hit {
+				decided = common.App("RIdx", common.Nat(i))
+			} else if bad {
+				decided = "RErr"
+			}
+		default:
+			sets = append(sets, "TOther")
+		}
+		if expected == "" && decided != "" {
+			expected = decided
+		}
+	}
+	if expected == "" {
+		expected = "RErr"
+	}
+	return sets, expected, malformed
+}
+
+func runHistory(in input, c common.Case, idx map[string]int, sid func(string) int64) (common.Case, error) {
+	h, err := build(in)
+	if err != nil {
+		return c, fmt.Errorf("NewMultiHashring: %v", err)
+	}
+	order := append([]string{}, in.Tenants...)
+	var names []string
+	for _, f := range in.Families {
+		for k := 0; k < in.N; k++ {
+			names = append(names, fmt.Sprintf("%s%d", f, k))
+		}
+	}
+	r := rand.New(rand.NewSource(in.Seed))
+	r.Shuffle(len(names), func(a, b int) { names[a], names[b] = names[b], names[a] })
+	order = append(order, names...)
+	for k := 0; k < len(names); k += 10 { // repeated requests: cache hits
+		order = append(order, names[k])
+	}
+	type lookup struct {
+		tenant, observed, expected string
+	}
+	var sample []lookup
+	var firstBad *lookup
+	bad := 0
+	anyMalformed := false
+	for n, t := range order {
+		_, exp, mal := view(in, t, func(string) int64 { return 0 })
+		anyMalformed = anyMalformed || mal
+		got := ask(h, t, idx)
+		l := lookup{t, got, exp}
+		if got != exp {
+			bad++
+			if firstBad == nil {
+				firstBad = &l
+				c.GoPred = fmt.Sprintf("lookup #%d on one multi-hashring instance: tenant %q is routed to %s, its configuration selects %s", n, t, got, exp)
+				c.Sig = "history-misroute"
+			}
+		}
+		if n < len(in.Tenants) || r.Intn(len(order)/24+1) == 0 {
+			sample = append(sample, l)
+		}
+	}
+	if firstBad != nil {
+		sample = append([]lookup{*firstBad}, sample...)
+	}
+	if len(sample) > 40 {
+		sample = sample[:40]
+	}
+	var qs []string
+	for _, l := range sample {
+		sets, _, _ := view(in, l.tenant, sid)
+		qs = append(qs, common.App("Q", common.Z(sid(l.tenant)), common.List(sets), common.List([]string{l.observed}), "[]"))
+	}
+	c.Coq = common.App("CHistory", common.Nat(len(order)), common.Nat(bad), common.List(qs))
+	c.Obs = map[string]any{"lookups": len(order), "disagreements": bad}
+	if firstBad != nil {
+		c.Obs = map[string]any{"lookups": len(order), "disagreements": bad,
+			"first": map[string]string{"tenant": firstBad.tenant, "observed": firstBad.observed, "expected": firstBad.expected}}
+	}
+	c.Class = "history"
+	if anyMalformed {
+		c.Class = "history/malformed-pattern"
+	}
+	c.Nontrivial = len(in.Rings) >= 2 && len(order) >= 1000
+	return c, nil
 }
 
 func facts(repo string, w io.Writer) error {
@@ -53,6 +190,27 @@ func facts(repo string, w io.Writer) error {
 	}
 	fmt.Fprintln(w, "(* pkg/receive/hashring.go: source-order events of multiHashring.GetN *)")
 	fmt.Fprint(w, common.EventsCoq("getn_events", evs))
+	// the tenant cache of multiHashring.GetN must be keyed by the tenant string itself:
+	// every index into m.cache is `m.cache[tenant]`, at least one read and one write
+	gd, err := s.FindFunc("multiHashring.GetN")
+	if err != nil {
+		return err
+	}
+	uses, keyed := 0, true
+	ast.Inspect(gd.Body, func(n ast.Node) bool {
+		if ix, ok := n.(*ast.IndexExpr); ok && s.ExprString(ix.X) == "m.cache" {
+			uses++
+			if s.ExprString(ix.Index) != "tenant" {
+				keyed = false
+			}
+		}
+		return true
+	})
+	if uses < 2 {
+		keyed = false
+	}
+	fmt.Fprintln(w, "(* multiHashring.GetN: every use of the cache is m.cache[tenant] (keyed by the full tenant name) *)")
+	fmt.Fprintf(w, "Definition cache_key_is_tenant : bool := %s.\n", common.Bool(keyed))
 	mevs, err := s.CallOrder("tenantSet.match")
 	if err != nil {
 		return err
@@ -115,43 +273,15 @@ func run(raw json.RawMessage) (common.Case, error) {
 		}
 		return strID[s]
 	}
+	if in.History {
+		return runHistory(in, c, idx, sid)
+	}
 	var qs []string
 	var obs []any
 	malformed := false
 	for _, t := range in.Tenants {
-		// the config as seen from this tenant
-		var sets []string
-		for _, r := range in.Rings {
-			switch {
-			case len(r.Tenants) == 0:
-				sets = append(sets, "TDefault")
-			case r.Type == "exact" || r.Type == "":
-				var ids []int64
-				for _, x := range r.Tenants {
-					ids = append(ids, sid(x))
-				}
-				sets = append(sets, common.App("TExact", common.ZList(ids)))
-			case r.Type == "glob":
-				var rs []string
-				seen := map[string]bool{}
-				for _, p := range r.Tenants {
-					if seen[p] { // the tenant set is a map: duplicates collapse
-						continue
-					}
-					seen[p] = true
-					m, err := filepath.Match(p, t)
-					if err != nil {
-						rs = append(rs, common.None)
-						malformed = true
-					} else {
-						rs = append(rs, common.Some(common.Bool(m)))
-					}
-				}
-				sets = append(sets, common.App("TGlob", common.List(rs)))
-			default:
-				sets = append(sets, "TOther")
-			}
-		}
+		sets, _, mal := view(in, t, sid)
+		malformed = malformed || mal
 		var firsts, repeats []string
 		var first receive.Hashring
 		for k := 0; k < in.Fresh; k++ {
@@ -250,6 +380,17 @@ func gen(r *rand.Rand, tier string, n int) []any {
 			in.Tenants = append(in.Tenants, common.Pick(r, tenants...))
 		}
 		in.Fresh = 3
+		if r.Intn(8) == 0 {
+			// many tenants on one instance: name families that the patterns above sort into
+			// different hashrings (team-* / prod-? / exact names / default)
+			in.History = true
+			in.Families = []string{"cust-", "team-", "prod-", "batch-"}[:int(common.Between(r, 2, 4))]
+			in.N = int(common.Pick(r, int64(300), 1000, 2500))
+			if tier == "thorough" {
+				in.N *= 2
+			}
+			in.Seed = r.Int63()
+		}
 		out = append(out, in)
 	}
 	return out
